@@ -2,6 +2,7 @@ import FcpptProofs.C02.Refine
 import FcpptProofs.C02.Sound
 import FcpptProofs.C02.Progress
 import FcpptProofs.C02.Total
+import FcpptProofs.C02.TotalRec
 set_option linter.unusedSimpArgs false
 set_option linter.unusedVariables false
 /-!
@@ -355,8 +356,7 @@ theorem nonnullable_consumes {g : G} {p : P} {sk : Sk} {inp rest : List Nat} {v 
 /-- **Termination** for well-formed grammars without recursion (`WF0`: no `ref`, no repetition —
 `*`, `+`, the loops of `separator`/`list` — of a nullable body) under a well-formed skipper: the
 implementation model terminates with an outcome on every input, from every start position.
-(Full statement for *recursive* well-formed grammars — Ford's `WF` with no left recursion — is NOT
-proved; soundness, refinement and determinism above do not depend on it: they hold for every fuel.) -/
+(The statement for *recursive* well-formed grammars is `wf_total` below.) -/
 theorem wf_total_nonrec (g : G) (p : P) (hw : WF0 p) (sk : Sk) (hsk : SkWF sk) (s : List Nat) (pos : Nat) :
     ∃ f m, M.run g s f p sk pos = some m := by
   obtain ⟨x, hx⟩ := parse_total g (size p) p (Nat.le_refl _) hw sk hsk (s.drop pos)
@@ -377,6 +377,54 @@ theorem wf_total_nonrec_string (g : G) (p : P) (hw : WF0 p) (sk : Sk) (hsk : SkW
       | nil => exact ⟨_, _, ((parseString_iff g p sk s _).mpr (.ok h0 hx)).choose_spec⟩
       | cons c r => exact ⟨_, _, ((parseString_iff g p sk s _).mpr (.rest h0 hx)).choose_spec⟩
 
+/-- **Termination for recursive grammars** (Ford's well-formedness): if the rules can be ranked (`rk`, bounded by `K`)
+so that a rule reachable from the start of another rule's body without consuming input has a strictly smaller rank
+(no left recursion, direct or indirect, also through `-`/`*`/`!`/nullable prefixes) and no repetition has a nullable
+body (`GWF`, `WFr`), then under a well-formed skipper the implementation model terminates with an outcome for every
+parser that is well-formed at the top rank, on every input, from every start position. -/
+theorem wf_total (g : G) (rk : Nat → Nat) (K : Nat) (hg : GWF g rk K) (p : P) (hw : WFr rk K p K)
+    (sk : Sk) (hsk : SkWF sk) (s : List Nat) (pos : Nat) :
+    ∃ f m, M.run g s f p sk pos = some m := by
+  obtain ⟨x, hx⟩ := parse_total_wf g rk K hg p hw sk hsk (s.drop pos)
+  exact let ⟨f, m, hm, _⟩ := (run_iff_derives g s p sk pos x).mpr hx; ⟨f, m, hm⟩
+
+/-- … and so do the string entry points (`parse_string`, `phrase_parse_string`, `grammar_parse_string`). -/
+theorem wf_total_string (g : G) (rk : Nat → Nat) (K : Nat) (hg : GWF g rk K) (p : P) (hw : WFr rk K p K)
+    (sk : Sk) (hsk : SkWF sk) (s : List Nat) :
+    ∃ f t, M.parseString g f p sk s = some t := by
+  obtain ⟨x0, h0⟩ := skip_total hsk s
+  cases x0 with
+  | err ft => exact ⟨_, _, ((parseString_iff g p sk s _).mpr (.skipErr h0)).choose_spec⟩
+  | ok r0 =>
+    obtain ⟨x, hx⟩ := parse_total_wf g rk K hg p hw sk hsk r0
+    cases x with
+    | err ft => exact ⟨_, _, ((parseString_iff g p sk s _).mpr (.err h0 hx)).choose_spec⟩
+    | ok v rest =>
+      cases rest with
+      | nil => exact ⟨_, _, ((parseString_iff g p sk s _).mpr (.ok h0 hx)).choose_spec⟩
+      | cons c r => exact ⟨_, _, ((parseString_iff g p sk s _).mpr (.rest h0 hx)).choose_spec⟩
+
+/-- `WF0` is the rank-free special case: a parser without `ref` is well-formed under every ranking. -/
+theorem wf0_wfr (rk : Nat → Nat) (K : Nat) : ∀ (p : P) (k : Nat), WF0 p → WFr rk K p k := by
+  intro p
+  induction p with
+  | ref j => intro k h; exact absurd h (by simp [WF0])
+  | seq a b iha ihb => intro k h; exact ⟨iha _ h.1, ihb _ h.2⟩
+  | alt a b iha ihb => intro k h; exact ⟨iha _ h.1, ihb _ h.2⟩
+  | rep a iha => intro k h; exact ⟨iha _ h.1, h.2⟩
+  | plus a iha => intro k h; exact ⟨iha _ h.1, h.2⟩
+  | sep a s iha ihs => intro k h; exact ⟨iha _ h.1, ihs _ h.2.1, h.2.2⟩
+  | list o a s c iho iha ihs ihc => intro k h; exact ⟨iho _ h.1, iha _ h.2.1, ihs _ h.2.2.1, ihc _ h.2.2.2.1, h.2.2.2.2⟩
+  | opt a ih => intro k h; exact ih _ h
+  | not a ih => intro k h; exact ih _ h
+  | fatal a ih => intro k h; exact ih _ h
+  | lexeme a ih => intro k h; exact ih _ h
+  | conv _ a ih => intro k h; exact ih _ h
+  | convIf _ a ih => intro k h; exact ih _ h
+  | ignore a ih => intro k h; exact ih _ h
+  | named a ih => intro k h; exact ih _ h
+  | _ => intro k h; trivial
+
 /-! ## non-vacuity: concrete grammars run through the model -/
 
 def exG : G := { rules := fun i => if i = 0 then .alt (.seq (.lit 97) (.ref 0)) .eps else .fail,
@@ -393,6 +441,26 @@ example : M.parseString exG 20 (.alt (.seq (.lit 97) (.lit 98)) .any) .eps [97] 
 -- a well-formed non-recursive parser and skipper (hypotheses of `wf_total_nonrec`)
 example : WF0 (.list (.lit 97) (.plus (.cset [98, 99])) (.lit 120) (.lit 97)) ∧ SkWF (.rep (.cset [32])) := by
   simp [WF0, SkWF, nullable, skNullable]
+-- the recursive grammar `exG` (r0 = 'a' r0 | ε) is well-formed with every rule at rank 0 (hypotheses of `wf_total`) …
+example : GWF exG (fun _ => 0) 1 ∧ WFr (fun _ => 0) 1 (.ref 0) 1 := by
+  refine ⟨fun j => ⟨by simp, ?_⟩, by simp [WFr]⟩
+  by_cases h : j = 0 <;> simp [exG, h, WFr, nullable]
+-- … and mutual recursion behind a consumed character: r0 = '(' r1 ')' | 'x',  r1 = r0 (',' r0)*  (ranks 1 and 2)
+def exG2 : G := { rules := fun i => if i = 0 then .alt (.seq (.lit 40) (.seq (.ref 1) (.lit 41))) (.lit 120)
+                                     else if i = 1 then .seq (.ref 0) (.rep (.seq (.lit 44) (.ref 0))) else .fail,
+                  fn := fun _ v => v, fnIf := fun _ v => .ok v }
+example : GWF exG2 (fun i => if i = 1 then 2 else 1) 3 := by
+  intro j
+  by_cases h0 : j = 0
+  · subst h0; simp [exG2, WFr, nullable]
+  · by_cases h1 : j = 1
+    · subst h1; simp [exG2, WFr, nullable]
+    · simp [exG2, h0, h1, WFr]
+-- the hypothesis is needed: the left-recursive rule r0 = r0 'a' | ε admits no ranking and the model runs out of every fuel tried
+def exLeft : G := { rules := fun _ => .alt (.seq (.ref 0) (.lit 97)) .eps, fn := fun _ v => v, fnIf := fun _ v => .ok v }
+example (rk : Nat → Nat) (K : Nat) : ¬ GWF exLeft rk K := by
+  intro h; have := (h 0).2; simp [exLeft, WFr] at this
+example : M.run exLeft [97] 200 (.ref 0) .eps 0 = none := by decide
 -- the hypotheses of the clause theorems are satisfiable
 example : Derives exG (.lit 97) .eps [97] (.ok .unit []) := .litOk _ _ _
 example : Derives exG (.fatal (.lit 97)) .eps [98] (.err true) := .fatalErr (.litNo _ _ _ _ (by decide))
